@@ -553,8 +553,8 @@ def _batch_se2(ctx, order, mass):
             else:
                 ev.stmt(st)
     run(fn.body)
-    d1 = [v for b, i, v, s in ev.stores if b == "D" and i.replace(" ", "") == ":,i+1"]
-    v1 = [v for b, i, v, s in ev.stores if b == "V" and i.replace(" ", "") == ":,i+1"]
+    d1 = [v for b, i, v, s in ev.stores if b == "D" and i.replace(" ", "").strip("()") == ":,i+1"]
+    v1 = [v for b, i, v, s in ev.stores if b == "V" and i.replace(" ", "").strip("()") == ":,i+1"]
     return (d1[-1] if d1 else None), (v1[-1] if v1 else None), (loops[0] if loops else fn)
 
 
@@ -714,7 +714,576 @@ def r2_step_equals_batch(ctx):
                           "v = E_vd d + E_vv v + PQF[v half], PQF = P M^-1 f0 (+ Q M^-1 f1)", loop, None if ok else {"d": repr(d1), "v": repr(v1)})
 
 
+# ---------------------------------------------------------------------------------------------------------------- add-on == f1-linear part
+def _inc(cell):
+    if cell is None or not _good(cell["value"]) or not _good(cell["cur"]):
+        return None
+    return cell["value"] - cell["cur"]
+
+
+def _pos_for_addon(ctx, kind, cfg):
+    """the positive-send arm the add-on is compared with (for the damping-as-force generator: the world in which the cache is valid)"""
+    if kind == "cdf" and cfg["k"]:
+        index, tags, cache, roles, arms = _find_state(ctx, kind, cfg)
+        if len(tags) == 1 and len(cache) == 1:
+            w = _worlds(tags[0], cache[0])[0]
+            return run_arm(ctx, kind, cfg, "pos", carry=w[1], generic=w[2]), cache[0]
+        return arms[0], None
+    return run_arm(ctx, kind, cfg, "pos", generic_prefix="carry:"), None
+
+
+def r3_addon_linear_part(ctx):
+    """an add-on send adds exactly the f1-linear part of the positive-send update and touches nothing else"""
+    for kind, configs in (("real", u_configs()), ("cdf", u_configs()), ("se2", se2_configs())):
+        short = GENS[kind][1].split(".")[1]
+        for cfg in configs:
+            tag = f"{short} ({cfg_tag(cfg)})"
+            try:
+                pos, cache = _pos_for_addon(ctx, kind, cfg)
+                add = run_arm(ctx, kind, cfg, "addon", generic_prefix="carry:")
+            except Unsupported as e:
+                ctx.error(f"{tag}: add-on send", None, str(e))
+                continue
+            lp = add.loop
+            if cfg["k"]:
+                for arr, label in (("d", "displacement"), ("v", "velocity")):
+                    cell = add.cell(arr, "k")
+                    if cfg["order"] == 0:
+                        ctx.check(cell is None, f"{tag}: with zero-order hold an add-on force leaves the current {label} untouched (it acts from the next step on)",
+                                  cell["node"] if cell else lp, None if cell is None else repr(cell["value"]))
+                        continue
+                    pv = _u(pos.value(arr, "k"), cfg)
+                    if cell is None or not _good(pv):
+                        ctx.fail(f"{tag}: add-on updates the current {label}", lp, sorted({c["text"] for c in add.cells}))
+                        continue
+                    inc = _u(_inc(cell), cfg)
+                    if inc is None:
+                        ctx.error(f"{tag}: add-on {label}", cell["node"], repr(cell["value"]))
+                        continue
+                    lin = pv.diff("f1") * F1
+                    ok = inc.equals(lin)
+                    ctx.check(ok, f"{tag}: the add-on {label} increment is the f1-linear part of the positive-send update", cell["node"],
+                              None if ok else {"increment": repr(inc), "d(update)/d f1 * F1": repr(lin)})
+            c = _force_cell(add)
+            inc = _inc(c)
+            ok = inc is not None and inc.equals(F1ALL)
+            ctx.check(ok, f"{tag}: an add-on accumulates into the stored force of step i", c["node"] if c else lp,
+                      None if ok else (repr(c["value"]) if c else "no store into the force history"))
+            if cfg.get("rf"):
+                c = add.cell("d", "rf")
+                inc = _inc(c)
+                ok = inc is not None and inc.equals(IKRF * F1RF)
+                ctx.check(ok, f"{tag}: the add-on rf displacement increment is K_rf^-1 F1[rf]", c["node"] if c else lp,
+                          None if ok else (repr(c["value"]) if c else "no store"))
+            allowed = {("d", "k"), ("v", "k"), ("d", "rf"), ("force", "all"), ("force", "k"), ("force", "rf")}
+            other = [c["text"] for c in add.cells if (c["key"][0], c["key"][1]) not in allowed or c["key"][2] != "cur"]
+            ctx.check(not other, f"{tag}: an add-on touches nothing else", lp, other, nontrivial=False)
+            ivs = sorted(add.canon.index_vars)
+            ctx.check(len(ivs) == 1, f"{tag}: every add-on store addresses the column of the step solved last", lp, ivs, nontrivial=False)
+            if cache is not None and cfg["order"] == 1:
+                dn_pos, dn_add = _u(pos.final(cache), cfg), _u(add.final(cache), cfg)
+                ok = _good(dn_pos) and _good(dn_add) and (dn_add - F.sym("carry:" + cache)).equals(dn_pos.diff("f1") * F1)
+                ctx.check(ok, f"{tag}: the cached damping force receives the f1-linear part as well", lp,
+                          None if ok else {"add-on": repr(dn_add), "positive": repr(dn_pos)})
+
+
+# ---------------------------------------------------------------------------------------------------------------- complex-eigenvalue path
+FRB, FK = F.sym("frb"), F.sym("fk")
+
+
+class _ReIm(ast.NodeTransformer):
+    """X.real / X.imag -> __re(X) / __im(X) so that the two parts stay distinguishable in the algebra"""
+
+    def visit_Attribute(self, node):
+        self.generic_visit(node)
+        if node.attr in ("real", "imag") and isinstance(node.ctx, ast.Load):
+            return ast.copy_location(ast.Call(func=ast.Name(id="__re" if node.attr == "real" else "__im", ctx=ast.Load()), args=[node.value], keywords=[]), node)
+        return node
+
+
+def _cx_env():
+    env = _mk_env()
+    for nm in ("rur_d", "iur_d", "rur_v", "iur_v"):
+        env[f"pc.{nm}"] = F.sym(nm)
+    env.update({"pc.G": F.sym("G"), "pc.A": F.sym("A"), "pc.Ap": F.sym("Ap"), "self.ikrf": IKRF, "self.m": F.sym("m")})
+    return env
+
+
+def _cx_call(node, ev):
+    d = dotted(node.func) or ""
+    if d in ("__re", "__im"):
+        v = ev.ev(node.args[0])
+        if is_unknown(v):
+            return v
+        return F.fn("re" if d == "__re" else "im", need(v))
+    if d in ("self._delconj",):
+        return F.const(0)
+    return _call_hook(node, ev)
+
+
+def _cx_cond(cfg):
+    def cond(test, ev):
+        if isinstance(test, ast.UnaryOp) and isinstance(test.op, ast.Not) and utext(test) != "notself.slices":
+            r = cond(test.operand, ev)
+            return None if r is None else not r
+        t = utext(test)
+        table = {
+            "self.rbsize": cfg["rb"], "rbsize": cfg["rb"], "self.misnotNone": cfg["m"] is not None, "misnotNone": cfg["m"] is not None,
+            "self.unc": cfg["m"] == "unc", "unc": cfg["m"] == "unc", "nt>1": True, "nt==1": False,
+            "self.order==1": cfg["order"] == 1, "order==1": cfg["order"] == 1, "order==0": cfg["order"] == 0,
+            "notself.slices": False, "self.ksizeandnt>1": True, "ksize": True, "self.ksize": True,
+            "self.systypeisfloat": cfg["real"], "systypeisfloat": cfg["real"], "rfsize": cfg.get("rf", True), "self.rfsize": cfg.get("rf", True),
+        }
+        return table.get(t)
+    return cond
+
+
+def _batch_complex(ctx, cfg):
+    """one step of SolveUnc._solve_complex_unc for the configuration: dict of the values stored into column i+1"""
+    fn0 = ctx.src.func(UNC, "SolveUnc._solve_complex_unc")
+    fn = _ReIm().visit(_copy.deepcopy(fn0))
+    cond = _cx_cond(cfg)
+
+    def sub(node, ev):
+        t = utext(node)
+        fixed = {"force[rb]": FRB, "force[kdof]": FK, "drb[:,0]": F.sym("drb0"), "vrb[:,0]": F.sym("vrb0"), "d[rb]": F.sym("drb"), "v[rb]": F.sym("vrb"),
+                 "v[kdof,0]": V0, "d[kdof,0]": D0}
+        if t in fixed:
+            return fixed[t]
+        m = _re.fullmatch(r"(\w+)\[:,(:-1|1:|i)\]", t)
+        if m and m.group(1) in ev.env and not is_unknown(ev.env[m.group(1)]) and m.group(1) not in ("y",):
+            base = need(ev.env[m.group(1)])
+            if m.group(2) == ":-1":
+                return base.subs({"frb": F0RB, "fk": F0})
+            if m.group(2) == "1:":
+                return base.subs({"frb": F1RB, "fk": F1})
+            return base
+        if t == "y[:,1:]":
+            for b, idx, val, st in reversed(ev.stores):
+                if b == "y" and idx.replace(" ", "").strip("()") == ":,i+1":
+                    return val
+        return NotImplemented
+
+    ev = Evaluator(env=_cx_env(), cond=cond, src=ctx.src, subscript=sub, call=_cx_call, store_accept=lambda n, i, node: True)
+    ev.env["y0"] = F.sym("y0")
+
+    def run(stmts):
+        for st in stmts:
+            if isinstance(st, ast.If):
+                c = cond(st.test, ev)
+                if c is None:
+                    raise Unsupported(f"_solve_complex_unc: undecided test `{ast.unparse(st.test)}`")
+                run(st.body if c else st.orelse)
+            elif isinstance(st, ast.For):
+                run(st.body)           # one symbolic iteration: column i -> i + 1
+            elif isinstance(st, ast.Expr):
+                continue
+            else:
+                ev.stmt(st)
+    run(fn.body)
+    out = {}
+    for b, idx, val, st in ev.stores:
+        out[(b, idx.replace(" ", "").strip("()"))] = val
+    out["__AF"] = ev.env.get("AF")
+    out["__AFp"] = ev.env.get("AFp")
+    out["__ABF"] = ev.env.get("ABF")
+    return out, fn0
+
+
+def _old_cfg(cfg):
+    return {"order": cfg["order"], "m": cfg["m"], "real": cfg["real"], "rb": True}
+
+
+def r2c_complex_path(ctx):
+    """complex-eigenvalue solver: (a) the zero-order-hold arm of the batch loop is the first-order arm with the force held; (b) a positive
+    send of the generator stores, for the rigid-body, elastic and residual-flexibility partitions, exactly the batch step computed from
+    column i-1; in every configuration order x mass (None / diagonal / full) x system type (real / complex)."""
+    nconf = 0
+    for cfg in cx_configs():
+        order = cfg["order"]
+        tag = f"order {order}, m {cfg['m'] or 'None'}, {'real' if cfg['real'] else 'complex'} system"
+        try:
+            b, bfn = _batch_complex(ctx, _old_cfg(cfg))
+            g = run_arm(ctx, "complex", cfg, "pos", generic_prefix="carry:")
+        except Unsupported as e:
+            ctx.error(f"complex path ({tag}): could not evaluate", None, str(e))
+            continue
+        lp = g.loop
+        nconf += 1
+        pairs = [("rigid-body displacement", ("drb", ":,i+1"), ("d", "rb")), ("rigid-body velocity", ("vrb", ":,i+1"), ("v", "rb")),
+                 ("elastic displacement", ("d", "kdof,1:"), ("d", "k")), ("elastic velocity", ("v", "kdof,1:"), ("v", "k"))]
+        for what, bk, gk in pairs:
+            bv, gv = b.get(bk), g.value(*gk)
+            if not _good(bv) or not _good(gv):
+                ctx.error(f"complex path ({tag}): {what} not lowered", bfn, {"batch": repr(bv), "generator": repr(gv)})
+                continue
+            # batch value is expressed on (drb0, vrb0, y-step); bring the elastic one to the same starting point
+            bv = bv.subs({"di": F.sym("y0")})
+            ok = gv.equals(bv)
+            ctx.check(ok, f"_solve_complex_unc_generator ({tag}): a positive send stores the batch {what} step computed from column i-1", lp,
+                      None if ok else {"generator": repr(gv), "batch": repr(bv)})
+        # acceleration of the rigid-body modes and the rf displacement
+        gv = g.value("a", "rb")
+        bv = b.get(("a", "rb"))
+        ok = _good(gv) and _good(bv) and gv.equals(bv.subs({"frb": F1RB}))
+        ctx.check(ok, f"_solve_complex_unc_generator ({tag}): rigid-body acceleration of step i is M_rb^-1 F1[rb] as in the batch solver", lp,
+                  None if ok else {"generator": repr(gv), "batch": repr(bv)})
+        gv = g.value("d", "rf")
+        ok = _eq(gv, IKRF * F1RF)
+        ctx.check(ok, f"_solve_complex_unc_generator ({tag}): residual-flexibility displacement of step i is K_rf^-1 F1[rf]", lp,
+                  None if ok else repr(gv))
+        c = _force_cell(g)
+        ok = c is not None and _eq(c["value"], F1ALL)
+        ctx.check(ok, f"_solve_complex_unc_generator ({tag}): a positive send replaces the stored force of step i by the sent force", lp,
+                  None if ok else (repr(c["value"]) if c else None), nontrivial=False)
+        if order == 0:
+            cfg1 = dict(_old_cfg(cfg), order=1)
+            b1, _ = _batch_complex(ctx, cfg1)
+            for nm, hold in (("__AF", {"f1rb": F0RB}), ("__AFp", {"f1rb": F0RB}), ("__ABF", {"f1": F0})):
+                v0_, v1_ = b.get(nm), b1.get(nm)
+                ok = _good(v0_) and _good(v1_) and v1_.subs(hold).equals(v0_)
+                ctx.check(ok, f"_solve_complex_unc ({tag}): the zero-order-hold {nm[2:]} is the first-order one with the force held (f1 := f0)", bfn,
+                          None if ok else {"order 0": repr(v0_), "order 1 with f1:=f0": repr(v1_.subs(hold)) if _good(v1_) else None})
+    ctx.check(nconf == 12, f"complex path evaluated in {nconf} of 12 configurations", None, nontrivial=False)
+
+
+class F2xCanon:
+    """reference hook of a get_f2x body: columns of the mode-shape argument by partition"""
+
+    def __init__(self, phi):
+        self.phi = phi
+
+    def __call__(self, ev, root, rows, col):
+        if symname(root) == self.phi and is_all(rows):
+            nm = {"self.kdof": "phik", "self.rb": "phir", "self.rf": "phirf"}.get(symname(col))
+            if nm:
+                return F.sym(nm)
+        return None
+
+
+def eval_f2x(ctx, rel, qual, cfg, velo, kind, sided=False):
+    """value returned by a get_f2x function in the configuration (helpers followed)"""
+    fn = ctx.src.func(rel, qual)
+    names = [a.arg for a in fn.args.args]
+    env, facts = cfg_env(cfg, None, extra_truths=[(F.sym(names[2]), velo)])
+    ev = GenEval(ctx, fn, env=env, facts=facts, inline=_inline(ctx, kind), refhook=F2xCanon(names[1]), sided=sided, strict=True)
+    ev.run(fn.body)
+    if not ev.returns:
+        raise Unsupported(f"{qual}: no return reached in configuration {cfg}")
+    return ev.returns[-1][0], fn
+
+
+def r3c_complex_addon(ctx):
+    """complex-eigenvalue generator: an add-on send (j < 0) adds to step i exactly the part of the positive-send update that is linear in the
+    sent force (and nothing for a zero-order hold); _get_f2x_complex_unc uses the same coefficients (Be through the eigenvector recovery for
+    the elastic modes, A/2 and Ap for the rigid-body modes)."""
+    zero = {k: F.const(0) for k in ("f0rb", "drb0", "vrb0", "d0", "v0", "f0")}
+    for cfg in cx_configs():
+        order = cfg["order"]
+        tag = f"order {order}, m {cfg['m'] or 'None'}, {'real' if cfg['real'] else 'complex'} system"
+        try:
+            pos = run_arm(ctx, "complex", cfg, "pos", generic_prefix="carry:")
+            add = run_arm(ctx, "complex", cfg, "addon", generic_prefix="carry:")
+        except Unsupported as e:
+            ctx.error(f"complex generator add-on ({tag}): could not evaluate", None, str(e))
+            continue
+        lp = add.loop
+        for key, what in ((("d", "rb"), "rigid-body displacement"), (("v", "rb"), "rigid-body velocity"), (("d", "k"), "elastic displacement"),
+                          (("v", "k"), "elastic velocity")):
+            a = add.cell(*key)
+            if order == 0:
+                ctx.check(a is None, f"_solve_complex_unc_generator ({tag}): an add-on send leaves the {what} of step i alone (zero-order hold: "
+                                     "the step does not depend on its end force)", lp, None if a is None else repr(a["value"]))
+                continue
+            p_ = pos.value(*key)
+            inc = _inc(a)
+            if inc is None or not _good(p_):
+                ctx.error(f"complex generator add-on ({tag}): {what} not lowered", lp, {"addon": repr(a["value"]) if a else None, "pos": repr(p_)})
+                continue
+            want = p_.subs(zero)
+            ok = inc.equals(want)
+            ctx.check(ok, f"_solve_complex_unc_generator ({tag}): an add-on send adds exactly the f1-linear part of the {what} update", lp,
+                      None if ok else {"add-on increment": repr(inc), "d(update)/d f1 * F1": repr(want)})
+        inc, p_ = _inc(add.cell("a", "rb")), pos.value("a", "rb")
+        ok = inc is not None and _good(p_) and inc.equals(p_)
+        ctx.check(ok, f"_solve_complex_unc_generator ({tag}): an add-on send adds M_rb^-1 F1[rb] to the rigid-body acceleration", lp,
+                  None if ok else repr(inc))
+        inc = _inc(add.cell("d", "rf"))
+        ok = inc is not None and inc.equals(IKRF * F1RF)
+        ctx.check(ok, f"_solve_complex_unc_generator ({tag}): an add-on send adds K_rf^-1 F1[rf] to the residual-flexibility displacement", lp,
+                  None if ok else repr(inc))
+        inc = _inc(_force_cell(add))
+        ok = inc is not None and inc.equals(F1ALL)
+        ctx.check(ok, f"_solve_complex_unc_generator ({tag}): an add-on send accumulates into the stored force of step i", lp, None if ok else repr(inc))
+    # get_f2x, complex path
+    for mass in (None, "unc", "coupled"):
+        for velo in (True, False):
+            cfg = {"order": 1, "m": mass, "real": True, "rb": True, "k": True, "rf": False, "unc": mass != "coupled"}
+            tag = f"m {mass or 'None'}, {'velocity' if velo else 'displacement'}"
+            try:
+                got, fn0 = eval_f2x(ctx, UNC, "SolveUnc._get_f2x_complex_unc", cfg, velo, "complex")
+                pos = run_arm(ctx, "complex", dict(cfg, rf=True), "pos", generic_prefix="carry:")
+            except Unsupported as e:
+                ctx.error(f"_get_f2x_complex_unc ({tag}): not lowered", None, str(e))
+                continue
+            el, rb = pos.value("v" if velo else "d", "k"), pos.value("v" if velo else "d", "rb")
+            if not _good(got) or not _good(el) or not _good(rb):
+                ctx.error(f"_get_f2x_complex_unc ({tag}): not lowered", fn0, repr(got))
+                continue
+            # unit add-on force through phi^T: f1 -> phik^T, f1rb -> phir^T; response recovered with phik / phir
+            el = el.subs(zero).subs({"f1": F.sym("phik")})
+            rb = rb.subs(zero).subs({"f1rb": F.sym("phir")})
+            want = F.sym("phik") * el + F.sym("phir") * rb
+            ok = got.equals(want)
+            ctx.check(ok, f"_get_f2x_complex_unc ({tag}): flexibility = phi_k (d update/d f1) phi_k^T + phi_rb (d update/d f1) phi_rb^T of the "
+                          "complex generator's first-order step", fn0, None if ok else {"got": repr(got), "want": repr(want)})
+
+
+# ---------------------------------------------------------------------------------------------------------------- get_f2x
+def r4_get_f2x(ctx):
+    """flexibility returned by get_f2x is the change a unit add-on force produces in the current step (same coefficient as the add-on arm)"""
+    phik, phirf = F.sym("phik"), F.sym("phirf")
+    for cdf in (False, True):
+        for rf in (False, True):
+            cfg = {"order": 1, "rf": rf, "k": True, "cdf": cdf, "m": "unc", "real": True, "unc": True}
+            gcfg = {"order": 1, "rf": rf, "k": True}
+            try:
+                pos, _ = _pos_for_addon(ctx, "cdf" if cdf else "real", gcfg)
+            except Unsupported as e:
+                ctx.error(f"get_f2x ({'damping as force' if cdf else 'diagonal damping'}, rf {rf}): generator step", None, str(e))
+                continue
+            for velo in (False, True):
+                tag = f"SolveUnc.get_f2x ({'velocity' if velo else 'displacement'}, {'damping as force' if cdf else 'diagonal damping'}, rf {'yes' if rf else 'no'})"
+                try:
+                    flex, fn = eval_f2x(ctx, UNC, "SolveUnc.get_f2x", cfg, velo, "real")
+                except Unsupported as e:
+                    ctx.error(tag, None, str(e))
+                    continue
+                upd = _u(pos.value("v" if velo else "d", "k"), gcfg)
+                if not _good(flex) or not _good(upd):
+                    ctx.error(tag, fn, f"{flex} {upd}")
+                    continue
+                want = phik * upd.diff("f1") * phik
+                if rf and not velo:
+                    want = want + phirf * need(pos.value("d", "rf")).diff("f1rf") * phirf
+                ok = flex.equals(want)
+                ctx.check(ok, f"{tag}: flexibility = phi (d update / d f1) phi^T, the change a unit add-on force produces in the current step "
+                              "(rf part: displacement only)", fn, None if ok else {"get_f2x": repr(flex), "from the generator": repr(want)})
+    for velo in (False, True):
+        try:
+            flex, fn = eval_f2x(ctx, UNC, "SolveUnc.get_f2x", {"order": 0, "rf": True, "k": True, "m": "unc", "real": True, "unc": True}, velo, "real")
+        except Unsupported as e:
+            ctx.error("SolveUnc.get_f2x (order 0)", None, str(e))
+            continue
+        ok = _good(flex) and flex.is_zero()
+        ctx.check(ok, f"SolveUnc.get_f2x ({'velocity' if velo else 'displacement'}): zero for zero-order hold (an add-on does not change the current step)", fn,
+                  None if ok else repr(flex))
+    # SolveExp2: sides of the mass inverse and halves of Q as in the add-on arm of the generator
+    for mass in (None, "unc", "coupled"):
+        for rf in (False, True):
+            gcfg = {"order": 1, "rf": rf, "k": True, "m": mass, "unc": mass != "coupled"}
+            try:
+                add = run_arm(ctx, "se2", gcfg, "addon", generic_prefix="carry:", sided=True)
+            except Unsupported as e:
+                ctx.error(f"SolveExp2.get_f2x (m {mass or 'None'}, rf {rf}): generator add-on", None, str(e))
+                continue
+            for velo in (False, True):
+                tag = f"SolveExp2.get_f2x ({'velocity' if velo else 'displacement'}, m {mass or 'None'}, rf {'yes' if rf else 'no'})"
+                try:
+                    flex, fn = eval_f2x(ctx, SE2, "SolveExp2.get_f2x", dict(gcfg, real=True), velo, "se2", sided=True)
+                except Unsupported as e:
+                    ctx.error(tag, None, str(e))
+                    continue
+                inc = _u(_inc(add.cell("v" if velo else "d", "k")), gcfg)
+                if not _good(flex) or inc is None:
+                    ctx.error(tag, fn, f"{flex} {inc}")
+                    continue
+                want = phik * inc.diff("f1") * F.fn("T", phik)
+                if rf and not velo:
+                    want = want + phirf * need(_inc(add.cell("d", "rf"))).diff("f1rf") * F.fn("T", phirf)
+                ok = flex.equals(want)
+                ctx.check(ok, f"{tag}: flexibility = phi_k (Q M^-1)[{'v half' if velo else 'd half'}] phi_k^T (+ rf part for displacement): the same half of Q "
+                              "and the same side of the mass inverse as the add-on arm of the generator", fn,
+                          None if ok else {"get_f2x": repr(flex), "from the generator": repr(want)})
+    for velo in (False, True):
+        try:
+            flex, fn = eval_f2x(ctx, SE2, "SolveExp2.get_f2x", {"order": 0, "rf": True, "k": True, "m": "unc", "real": True, "unc": True}, velo, "se2", sided=True)
+        except Unsupported as e:
+            ctx.error("SolveExp2.get_f2x (order 0)", None, str(e))
+            continue
+        ok = _good(flex) and flex.is_zero()
+        ctx.check(ok, f"SolveExp2.get_f2x ({'velocity' if velo else 'displacement'}): zero for zero-order hold", fn, None if ok else repr(flex))
+
+
+# ---------------------------------------------------------------------------------------------------------------- typestate
+GEN_STATE = ("self._d", "self._v", "self._a", "self._force")
+
+
+def _item_of(v):
+    """(sequence value, position) of item(seq, k)"""
+    u = sem.unfn(v) if _good(v) else None
+    if u is None or u[0] != "item" or not u[1][1].is_const():
+        return None
+    return u[1][0], int(u[1][1].const_value())
+
+
+def _eval_plain(ctx, rel, qual, cfg, kind, truths=(), fresh=False, inline=None):
+    fn = ctx.src.func(rel, qual)
+    env, facts = cfg_env(cfg, None, extra_truths=truths)
+    ev = GenEval(ctx, fn, env=env, facts=facts, inline=_inline(ctx, kind) if inline is None else inline, fresh_arrays=fresh)
+    ev.run(fn.body)
+    return ev, fn
+
+
+def r5_typestate(ctx):
+    plans = [
+        (UNC, "SolveUnc.generator", "real", [({"unc": True, "real": True, "cdf": True, "m": "unc"}, "self._solve_real_unc_generator_cdforces", False),
+                                             ({"unc": True, "real": True, "cdf": False, "m": "unc"}, "self._solve_real_unc_generator", False),
+                                             ({"unc": False, "real": True, "cdf": False, "m": "coupled"}, "self._solve_complex_unc_generator", True),
+                                             ({"unc": True, "real": False, "cdf": False, "m": "unc"}, "self._solve_complex_unc_generator", True)]),
+        (SE2, "SolveExp2.generator", "se2", [({"unc": True, "real": True, "m": "unc"}, "self._solve_se2_generator", False)]),
+    ]
+    for rel, q, kind, variants in plans:
+        # interleaved partitions are refused before anything is allocated or shared
+        try:
+            ev, fn = _eval_plain(ctx, rel, q, {"slices": False}, kind)
+            raised = [k for k, e in enumerate(ev.events) if e[0] == "raise"]
+            before = [e for e in ev.events[:raised[0]] if e[0] in ("setattr",) or (e[0] == "call" and e[1].startswith("self."))] if raised else None
+            ok = bool(raised) and not before
+            ctx.check(ok, f"{q}: interleaved partitions are refused before anything is allocated or published", fn,
+                      None if ok else {"raise reached": bool(raised), "effects before": [e[1] for e in before or []]})
+        except Unsupported as e:
+            ctx.error(f"{q}: refusal of interleaved partitions", None, str(e))
+        for cfg, gname, with_a in variants:
+            tag = f"{q} ({'uncoupled' if cfg['unc'] else 'coupled'}, {'real' if cfg['real'] else 'complex'}{', damping as force' if cfg.get('cdf') else ''})"
+            try:
+                ev, fn = _eval_plain(ctx, rel, q, dict(cfg, slices=True), kind)
+            except Unsupported as e:
+                ctx.error(f"{tag}: typestate", None, str(e))
+                continue
+            f0 = F.sym(fn.args.args[2].arg)
+            st = [ev.env.get(a) for a in GEN_STATE]
+            items = [_item_of(v) for v in st]
+            seqv = items[0][0] if items[0] else None
+            sc = sem.split_call(seqv) if seqv is not None else None
+            ok = all(items) and [it[1] for it in items] == [0, 1, 2, 3] and all(it[0].equals(seqv) for it in items) and sc is not None \
+                and sc[0] == "self._init_dva_part"
+            ctx.check(ok, f"{tag}: _d, _v, _a, _force are the four arrays _init_dva_part returns, in that order", fn,
+                      None if ok else {a: repr(v) for a, v in zip(GEN_STATE, st)})
+            if not ok:
+                continue
+            kinds = [(k, e) for k, e in enumerate(ev.events)]
+            last_pub = max((k for k, e in kinds if e[0] == "setattr" and e[1] in GEN_STATE), default=-1)
+            gcalls = [(k, e) for k, e in kinds if e[0] == "call" and e[1].startswith("self._solve_") and e[1].endswith(("_generator", "_generator_cdforces"))]
+            nexts = [k for k, e in kinds if e[0] == "call" and e[1] == "next"]
+            okg = len(gcalls) == 1 and gcalls[0][1][1] == gname
+            if okg:
+                pos = gcalls[0][1][2]
+                want = [st[0], st[1]] + ([st[2]] if with_a else []) + [f0]
+                okg = len(pos) == len(want) and not gcalls[0][1][3] and all(_eq(a, b) for a, b in zip(pos, want))
+            ctx.check(okg, f"{tag}: the generator body for this kind of system receives the published d, v{', a' if with_a else ''} and the initial force", fn,
+                      None if okg else [(e[1], [repr(x) for x in e[2]]) for _, e in gcalls])
+            okn = bool(nexts) and all(k > last_pub for k in nexts) and bool(gcalls) and all(k > gcalls[0][0] for k in nexts)
+            ctx.check(okn, f"{tag}: the arrays are published before the generator is primed", fn, None if okn else {"next": nexts, "last publish": last_pub})
+            r = ev.returns[-1][0] if ev.returns else None
+            okr = isinstance(r, tuple) and len(r) == 3 and _good(r[0]) and (sem.split_call(r[0]) or ("",))[0] == gname and _eq(r[1], st[0]) and _eq(r[2], st[1])
+            ctx.check(okr, f"{tag}: returns (generator, d, v) - the arrays the generator updates are the ones the caller watches", fn,
+                      None if okr else repr(r))
+    # finalize
+    for get_force in (False, True):
+        try:
+            fn = ctx.src.func(BASE, "_BaseODE.finalize")
+            gf = F.sym(fn.args.args[1].arg)
+            ev, fn = _eval_plain(ctx, BASE, "_BaseODE.finalize", {"unc": True, "real": True, "m": "unc"}, "real", truths=[(gf, get_force)])
+        except Unsupported as e:
+            ctx.error("finalize: typestate", None, str(e))
+            continue
+        want = [F.sym(a) for a in GEN_STATE]
+        calc = [e for e in ev.events if e[0] == "call" and e[1] == "self._calc_acce_kdof"]
+        ok = len(calc) == 1 and len(calc[0][2]) == 4 and not calc[0][3] and all(_eq(a, b) for a, b in zip(calc[0][2], want))
+        ctx.check(ok, f"finalize (get_force {get_force}): acceleration is recovered from equilibrium with the published d, v, a and the force finally in effect", fn,
+                  None if ok else [[repr(x) for x in e[2]] for e in calc])
+        dels = {e[1] for e in ev.events if e[0] == "del"}
+        ctx.check(set(GEN_STATE) <= dels, f"finalize (get_force {get_force}): the published arrays are forgotten", fn, sorted(dels), nontrivial=False)
+        r = ev.returns[-1][0] if ev.returns else None
+        sc = sem.split_call(r) if _good(r) else None
+        ok = sc is not None and sc[0].split(".")[-1] == "SimpleNamespace" and all(_eq(sc[2].get(k), w) for k, w in zip("dva", want))
+        ctx.check(ok, f"finalize (get_force {get_force}): the solution holds the published d, v, a", fn, None if ok else repr(r))
+        if get_force:
+            nm = None
+            for k, v in ev.env.items():
+                if k.endswith(".force") and _eq(v, want[3]):
+                    nm = k
+            ctx.check(nm is not None, "finalize: with get_force the force history finally in effect is returned", fn)
+    # _force is read only by finalize and the generator functions
+    readers = []
+    consts = G.ModConsts(ctx.src)
+    for rel in (BASE, UNC, SE2, O.NM, O.FD):
+        m = ctx.src.mod(rel)
+        for qq, f2 in m.funcs.items():
+            for n in walk_no_nested(f2):
+                if isinstance(n, ast.Attribute) and n.attr == "_force" and isinstance(n.ctx, ast.Load):
+                    readers.append(qq)
+                if isinstance(n, ast.Call) and dotted(n.func) == "getattr" and len(n.args) >= 2:
+                    a = n.args[1]
+                    names = set()
+                    if isinstance(a, ast.Constant) and isinstance(a.value, str):
+                        names = {a.value}
+                    elif isinstance(a, ast.Name):
+                        # a name bound by a loop / comprehension over a constant tuple
+                        for x in walk_no_nested(f2):
+                            it = None
+                            if isinstance(x, ast.comprehension) and isinstance(x.target, ast.Name) and x.target.id == a.id:
+                                it = x.iter
+                            if isinstance(x, ast.For) and isinstance(x.target, ast.Name) and x.target.id == a.id:
+                                it = x.iter
+                            if isinstance(it, ast.Name):
+                                v = consts.get(rel, it.id)
+                                if isinstance(v, tuple):
+                                    names |= {G.strconst(e) for e in v}
+                                else:
+                                    names.add("?")
+                            elif it is not None:
+                                names.add("?")
+                    if "_force" in names or "?" in names:
+                        readers.append(qq)
+    ok = set(readers) <= {"_BaseODE.finalize", "SolveUnc._solve_real_unc_generator", "SolveUnc._solve_real_unc_generator_cdforces",
+                          "SolveUnc._solve_complex_unc_generator", "SolveExp2._solve_se2_generator"}
+    ctx.check(ok, "the stored force history `_force` is read only by the generator bodies and finalize", BASE + ":1", sorted(set(readers)))
+    # _init_dva_part
+    inl = G.inline_table(ctx, [(BASE, "_BaseODE")], exclude=("_init_dva_part", "_init_dva", "generator", "tsolve", "fsolve", "finalize"))
+    for unc in (True, False):
+        tag = f"_init_dva_part ({'uncoupled' if unc else 'coupled'})"
+        try:
+            ev, fn = _eval_plain(ctx, BASE, "_BaseODE._init_dva_part", {"unc": unc, "m": "unc" if unc else "coupled", "rf": True, "k": True, "real": True}, "real",
+                                 fresh=True, inline=inl)
+        except Unsupported as e:
+            ctx.error(f"{tag}: initial arrays", None, str(e))
+            continue
+        f0 = F.sym(fn.args.args[2].arg)
+        r = ev.returns[-1][0] if ev.returns else None
+        ok = isinstance(r, tuple) and len(r) == 4 and all(symname(x) in ev.fresh for x in r) and len({symname(x) for x in r}) == 4
+        if ok:
+            kind, src = ev.fresh[symname(r[3])]
+            zero = kind == "zeros" or (kind == "copy" and symname(src) in ev.fresh and ev.fresh[symname(src)][0] == "zeros"
+                                       and not any(c["root"] is not None and _eq(c["root"], src) for c in ev.gcells))
+            cells = [c for c in ev.gcells if c["root"] is not None and _eq(c["root"], r[3])]
+            ok = zero and len(cells) == 1 and is_all(cells[0]["rows"]) and _good(cells[0]["col"]) and cells[0]["col"].is_zero() and _eq(cells[0]["value"], f0)
+        ctx.check(ok, f"{tag}: the force history starts as zeros with column 0 = F0", fn, None if ok else repr(r))
+        if isinstance(r, tuple) and len(r) == 4:
+            cells = [c for c in ev.gcells if c["root"] is not None and _eq(c["root"], r[0]) and symname(c["rows"]) == "self.rf"]
+            ok = len(cells) == 1 and _good(cells[0]["col"]) and cells[0]["col"].is_zero() and \
+                _eq(cells[0]["value"], IKRF * F.fn("ref", f0, F.sym("self.rf"), G.ALLM))
+            ctx.check(ok, f"{tag}: the rf displacement of step 0 is the static solution K_rf^-1 F0[rf] (as in the batch solver)", fn,
+                      None if ok else [repr(c["value"]) for c in cells])
+
+
 RULES = [
     ("C08-R1", r1_carried_state, 30),
     ("C08-R2", r2_step_equals_batch, 40),
+    ("C08-R2c", r2c_complex_path, 80),
+    ("C08-R3", r3_addon_linear_part, 24),
+    ("C08-R3c", r3c_complex_addon, 80),
+    ("C08-R4", r4_get_f2x, 8),
+    ("C08-R5", r5_typestate, 9),
 ]
